@@ -290,7 +290,6 @@ class XMLResourceLoader:
     def _parse(self, fp: IOType) -> None:
         root_started = False
         start_ns: list[tuple[str, str]] = []
-        end_ns = False
         nsmaps = self._nsmaps
         xmlns = self._xmlns
         events = 'start-ns', 'end-ns', 'start', 'comment', 'pi', 'end'
@@ -315,9 +314,6 @@ class XMLResourceLoader:
                     if not root_started:
                         self.root = node
                         root_started = True
-                    if end_ns:
-                        nsmap_stack.pop()
-                        end_ns = False
                     if start_ns:
                         nsmap_stack.append(nsmap_stack[-1].copy())
                         nsmap_stack[-1].update(start_ns)
@@ -326,10 +322,10 @@ class XMLResourceLoader:
                     nsmaps[node] = nsmap_stack[-1]
                 elif event == 'start-ns':
                     start_ns.append(node)
-                elif event == 'end-ns':
-                    end_ns = True
                 elif event == 'end':
                     remaining_levels += 1
+                    if node in xmlns:
+                        nsmap_stack.pop()  # leave the scope of the element's declarations
         except (SyntaxError, LookupError, ValueError) as err:
             if isinstance(err, XMLSchemaException):
                 raise
